@@ -5,8 +5,8 @@ _STD_US = {'ll_strlen.0': 12, 'll_memcmp.0': 12, 'll_memcpy.0': 12, 'll_memcpy.1
            'll_memmove.2': 12, 'll_memmove.3': 12, 'll_memchr.0': 12}
 
 _DISJUNCT = '_ZNKSt7__cxx1112basic_stringIcSt11char_traitsIcESaIcEE11_M_disjunctEPKc'
-_QPARTS, _TPARTS = 16, 32
-_QCPARTS, _TCPARTS = 12, 32
+_QPARTS, _TPARTS = 8, 32
+_QCPARTS, _TCPARTS = 24, 32
 
 
 def _std(kind, part):
@@ -14,8 +14,8 @@ def _std(kind, part):
     kind: 'b' byte-wise enumeration, 'c' component-wise enumeration, 'n' non-empty check"""
     if kind == 'b':
         hid = 'c17_standardize_b%02d' % part
-        qd = {'PMAX': 4, 'NPARTS': _QPARTS, 'PART': part}
-        td = {'PMAX': 6, 'NPARTS': _TPARTS, 'PART': part}
+        qd = {'PMAX': 3, 'NPARTS': _QPARTS, 'PART': part}
+        td = {'PMAX': 5, 'NPARTS': _TPARTS, 'PART': part}
         dom = ('every path of length 1..PMAX over {/, ., letter} (letter = a at even, b at odd offsets) whose index is PART mod '
                'NPARTS')
         qu, tu = 700, 8000
@@ -71,11 +71,12 @@ def _inc(kinds):
             'oracle': 'found iff a candidate of the applicable list exists; result path = first existing candidate in the order cwd, '
                       'includer dir, -I/-S dirs in command-line order (quotes) / -S dirs only (angle); source S_local only for '
                       'cwd, S_system for -S, S_alternate otherwise; no other path is probed',
-            'bounds': {'quick': {'defs': defs, 'unwind': 40, 'unwindset': _STD_US, 'cap': 600}}}
+            'bounds': {'quick': {'defs': defs, 'unwind': 40, 'unwindset': _STD_US, 'cap': 600}},
+            'tiers': ('quick', 'thorough') if kinds in (0, 4, 5, 6, 7) else ('thorough',)}
 
 
 HARNESSES = ([_std('b', p) for p in range(_TPARTS)] + [_std('c', p) for p in range(_TCPARTS)] + [_std('n', 0)]
-             + [_inc(k) for k in range(8)])
+             + [_inc(k) for k in (0, 4, 5, 6, 7, 1, 2, 3)])
 
 PROPERTY_INFO = {'C17': {'level': 'model_checking',
          'explanation': 'bounded symbolic execution (CBMC) of Filename::standardize and of the include search '
@@ -86,3 +87,8 @@ PROPERTY_INFO = {'C17': {'level': 'model_checking',
          'assumptions': ['lexical path model: no symbolic links; the parent of the root is the root']}}
 
 NOT_APPLICABLE = {}
+HARNESSES.append({'id': 'c17_tmp', 'property': 'C17', 'src': '/var/tmp/a_c09c17/t3.cxx', 'entry': 'harness_t3',
+  'tus': ['src/cppparser/cppPreprocessor.cxx', 'src/cppparser/cppFile.cxx', 'src/dtoolutil/filename.cxx'],
+  'skip_ctors': ['cppPreprocessor.cxx'], 'tuflags': ['-fno-inline'],
+  'cut': [_DISJUNCT], 'models': ['strdisjunct.c'], 'tiers': ('none',),
+  'bounds': {'quick': {'unwind': 12, 'unwindset': {'_ZN15CPPPreprocessor9InputFile3getEv.0': 1, '_ZN15CPPPreprocessor9InputFile4peekEv.0': 1}, 'cap': 300}}})
